@@ -67,6 +67,15 @@ def reserve (s : CS) (newCapacity : Int) : Option CS :=
       if off ≠ s1.length + s2.length then none
       else some ⟨elements, 0, off⟩
 
+/-- The tail of `PushBack` (after the optional growth): store at `write_pos` (wrapped) and advance it. -/
+def pushStore (s : CS) (x : Nat) : Option CS :=
+  let capacity : Int := s.elements.length
+  let els := if s.writePos < capacity then goSet s.elements s.writePos x
+             else goSet s.elements (s.writePos - capacity) x
+  match els with
+  | none => none
+  | some els => some ⟨els, s.readPos, s.writePos + 1⟩
+
 /-- `PushBack`. -/
 def pushBack (s : CS) (x : Nat) : Option CS :=
   let capacity : Int := s.elements.length
@@ -78,13 +87,7 @@ def pushBack (s : CS) (x : Nat) : Option CS :=
       else some s
     match s' with
     | none => none
-    | some s =>
-      let capacity : Int := s.elements.length
-      let els := if s.writePos < capacity then goSet s.elements s.writePos x
-                 else goSet s.elements (s.writePos - capacity) x
-      match els with
-      | none => none
-      | some els => some ⟨els, s.readPos, s.writePos + 1⟩
+    | some s => pushStore s x
 
 /-- `Front`. -/
 def front (s : CS) : Option Nat :=
@@ -131,6 +134,64 @@ def deepAssign (_s other : CS) : CS := ⟨other.elements, other.readPos, other.w
 
 /-- `Swap`. -/
 def swap (s other : CS) : CS × CS := (other, s)
+
+end CS
+
+/-! The exported methods as one step function on a pair `(s, other)` of slices (so that `Swap` and `DeepAssign`
+have a partner). A panic leaves the pair unchanged (every panic in these methods happens before any store). -/
+
+inductive QOp where
+  | push (x : Nat)
+  | pop
+  | front
+  | index (pos : Int)
+  | reserve (n : Int)
+  | clear
+  | swap
+  | deepAssign
+  | len
+  | cap
+  | slices
+deriving Repr, DecidableEq
+
+inductive QObs where
+  | panic
+  | done
+  | val (v : Nat)
+  | int (v : Int)
+  | two (a b : List Nat)
+deriving Repr, DecidableEq
+
+namespace CS
+
+def apply (st : CS × CS) : QOp → (CS × CS) × QObs
+  | .push x => match st.1.pushBack x with
+    | none => (st, .panic)
+    | some s' => ((s', st.2), .done)
+  | .pop => match st.1.popFront with
+    | none => (st, .panic)
+    | some (x, s') => ((s', st.2), .val x)
+  | .front => (st, match st.1.front with | none => .panic | some x => .val x)
+  | .index pos => (st, match st.1.index pos with | none => .panic | some x => .val x)
+  | .reserve n => match st.1.reserve n with
+    | none => (st, .panic)
+    | some s' => ((s', st.2), .done)
+  | .clear => match st.1.clear with
+    | none => (st, .panic)
+    | some s' => ((s', st.2), .done)
+  | .swap => (swap st.1 st.2, .done)
+  | .deepAssign => ((deepAssign st.1 st.2, st.2), .done)
+  | .len => (st, .int st.1.len)
+  | .cap => (st, .int st.1.cap)
+  | .slices => (st, match st.1.slices with | none => .panic | some (a, b) => .two a b)
+
+/-- Run a history from a pair of states, collecting the observations. -/
+def run : CS × CS → List QOp → (CS × CS) × List QObs
+  | st, [] => (st, [])
+  | st, op :: ops =>
+    let (st1, o) := apply st op
+    let (st2, os) := run st1 ops
+    (st2, o :: os)
 
 end CS
 end TLVerif.Algo
